@@ -584,8 +584,8 @@ def run_check(pid, tier, seed, replay=None):
     for _, h, r in results:
         for k, v in r["branches"].items():
             branches[k] = branches.get(k, 0) + v
-        gen_stats[r["name"]] = r["stats"].get("stats", {})
-        for s in r["stats"].get("samples", [])[:3]:
+        gen_stats[r["name"]] = r["stats"].get("stats") or {}
+        for s in (r["stats"].get("samples") or [])[:3]:
             samples.append({"harness": r["name"], "case": s})
     for t in lean["theorems"][:40]:
         samples.append({"obligation": t, "axioms": lean["axioms"].get(t)})
